@@ -429,6 +429,14 @@ def gen_cases(tier, rng):
         cases.append("bsphere kind=%s pts=%s" % (kind, pts_str(pts)))
     for kind, pts in point_sets(rng, n_main // 3):
         cases.append("bounds ver=%s kind=%s pts=%s" % (rng.choice(["ob", "fo3", "sk", "sse", "fo4"]), kind, pts_str(pts)))
+    # vertices moved after the bounds were computed once (same count): the recomputed bounds must enclose the
+    # NEW positions (a stale vertex cache would give the old sphere)
+    for kind, pts in point_sets(rng, max(6, n_main // 3)):
+        if len(pts) < 3:
+            continue
+        far = [[f32(p[0] + 40.0), f32(p[1] - 25.0), f32(p[2] + 10.0)] for p in reversed(pts)]
+        for ver in ("sk", "sse", "fo4"):
+            cases.append("bounds2 ver=%s kind=%s pts0=%s pts=%s" % (ver, kind, pts_str(pts), pts_str(far)))
     seen, out = set(), []
     for c in cases:
         if c not in seen:
@@ -617,13 +625,13 @@ def eval_case(case, I, M):
         want = xs[k // 2] if k & 1 else f32(f32(xs[k // 2] + xs[k // 2 - 1]) / 2)
         ev.close("law", "CalcMedianOfFloats = median", I[0], [want], 0.0)
         return True, ev, k > 1
-    if op in ("bsphere", "bounds"):
+    if op in ("bsphere", "bounds", "bounds2"):
         pts = [[float(Decimal(x)) for x in p.split(":")] for p in a["pts"].split(";")]
         if I[0] == "noshape":
             ev.fails.append(("law", "CreateShapeFromData returned no shape"))
             return True, ev, False
         c, rad = I[0][:3], I[0][3]
-        if op == "bounds":
+        if op in ("bounds", "bounds2"):
             back = I[1] if len(I) > 1 else []
             ev.close("law", "shape vertices read back = vertices given", [x for p in back for x in p], [x for p in pts for x in p], 0.0)
         mp = max(amax(p) for p in pts)
